@@ -9,6 +9,7 @@ package control
 
 import (
 	"bytes"
+	"context"
 	"fmt"
 	"io"
 	"net"
@@ -66,6 +67,24 @@ func c05TCPPair(v6 bool) (dialed, accepted *net.TCPConn, err error) {
 	}
 }
 
+func c05SmallBuffers(n int, conns ...*net.TCPConn) {
+	if n <= 0 {
+		return
+	}
+	for _, c := range conns {
+		_ = c.SetReadBuffer(n)
+		_ = c.SetWriteBuffer(n)
+	}
+}
+
+func c05TCPConnsBuf(v6 bool, sockBuf int) (*c05Conns, error) {
+	cn, err := c05TCPConns(v6)
+	if err == nil {
+		c05SmallBuffers(sockBuf, cn.client.(*net.TCPConn), cn.left.(*net.TCPConn), cn.right.(*net.TCPConn), cn.upstream.(*net.TCPConn))
+	}
+	return cn, err
+}
+
 func c05TCPConns(v6 bool) (*c05Conns, error) {
 	client, left, err := c05TCPPair(v6)
 	if err != nil {
@@ -109,7 +128,7 @@ func c05NTKey(s *c05Scn) string {
 
 // c05RunTCP executes a scenario over loopback sockets.
 func c05RunTCP(s *c05Scn, o c05GenOpt) (c05Verdict, error) {
-	cn, err := c05TCPConns(s.V6)
+	cn, err := c05TCPConnsBuf(s.V6, s.SockBuf)
 	if err != nil {
 		return c05Verdict{}, err
 	}
@@ -124,6 +143,95 @@ func c05RunBubble(t *testing.T, s *c05Scn, o c05GenOpt) (v c05Verdict) {
 		v = c05Judge(res, o, true)
 	})
 	return v
+}
+
+// A connection that is made to fail in the middle of a bulk transfer over the
+// splice path (plain TCP on both sides): the receiving end reads `after` bytes and
+// then aborts (RST, or close with unread data) while the sender keeps writing. What
+// happens to this connection is not judged; it only leaves the relay's shared
+// resources (pooled splice pipes, copy buffers) behind for the connections that follow.
+type c05Poison struct {
+	Kind  string // "upstream-rst" | "upstream-close" | "client-rst" | "both-rst"
+	Bulk  int    // bytes each sender tries to write
+	After int    // bytes an aborting end reads first
+	Seed  uint64
+	V6    bool
+}
+
+func c05GenPoison(t *rapid.T, label string) c05Poison {
+	return c05Poison{
+		Kind:  rapid.SampledFrom([]string{"upstream-rst", "upstream-rst", "upstream-close", "client-rst", "both-rst"}).Draw(t, label+"_kind"),
+		Bulk:  rapid.SampledFrom([]int{300 << 10, 1 << 20, 3 << 20}).Draw(t, label+"_bulk"),
+		After: rapid.SampledFrom([]int{0, 1, 4096, 70000, 200000}).Draw(t, label+"_after"),
+		Seed:  rapid.Uint64().Draw(t, label+"_seed"),
+		V6:    rapid.Bool().Draw(t, label+"_v6"),
+	}
+}
+
+func c05RunPoison(p c05Poison) error {
+	cn, err := c05TCPConns(p.V6)
+	if err != nil {
+		return err
+	}
+	relayDone := make(chan struct{})
+	go func() {
+		defer close(relayDone)
+		_ = RelayTCPContextWithRecords(context.Background(), cn.left, cn.right, func(int64) {}, func(int64) {})
+		_ = cn.left.Close()
+		_ = cn.right.Close()
+	}()
+	var wg sync.WaitGroup
+	send := func(c net.Conn, seed uint64) {
+		defer wg.Done()
+		buf := c05Fill(seed, 64<<10)
+		for sent := 0; sent < p.Bulk; sent += len(buf) {
+			if _, err := c.Write(buf); err != nil {
+				return
+			}
+		}
+	}
+	abort := func(c net.Conn, rst bool) {
+		defer wg.Done()
+		if p.After > 0 {
+			_, _ = io.ReadFull(c, make([]byte, p.After))
+		}
+		if rst {
+			_ = c.(*net.TCPConn).SetLinger(0)
+		}
+		_ = c.Close()
+	}
+	switch p.Kind {
+	case "upstream-rst", "upstream-close":
+		wg.Add(2)
+		go send(cn.client, p.Seed)
+		go abort(cn.upstream, p.Kind == "upstream-rst")
+	case "client-rst":
+		wg.Add(2)
+		go send(cn.upstream, p.Seed)
+		go abort(cn.client, true)
+	default:
+		wg.Add(4)
+		go send(cn.client, p.Seed)
+		go send(cn.upstream, p.Seed^0x55)
+		go abort(cn.upstream, true)
+		go abort(cn.client, true)
+	}
+	done := make(chan struct{})
+	go func() { wg.Wait(); <-relayDone; close(done) }()
+	tm := time.NewTimer(150 * time.Second)
+	defer tm.Stop()
+	select {
+	case <-done:
+	case <-tm.C:
+		for _, c := range []net.Conn{cn.client, cn.upstream, cn.left, cn.right} {
+			_ = c.Close()
+		}
+		<-done
+		return fmt.Errorf("aborted bulk connection %+v did not wind down", p)
+	}
+	_ = cn.client.Close()
+	_ = cn.upstream.Close()
+	return nil
 }
 
 func TestC05_Bytes(t *testing.T) {
@@ -147,14 +255,52 @@ func TestC05_Bytes(t *testing.T) {
 	rapid.Check(t, func(rt *rapid.T) {
 		oo := o
 		oo.HandleConn = rapid.IntRange(0, 2).Draw(rt, "handleConn") == 0
+		// 1 case in 4 is a sequence of connections sharing the relay's pooled resources:
+		// one or two that fail mid-transfer on the splice path, then healthy ones that
+		// are judged (the last of them is the case's scenario s).
+		var poisons []c05Poison
+		var before *c05Scn
+		if rapid.IntRange(0, 3).Draw(rt, "sequence") == 0 {
+			oo.ForcePlain = true
+			for i, n := 0, rapid.IntRange(1, 2).Draw(rt, "nFailing"); i < n; i++ {
+				poisons = append(poisons, c05GenPoison(rt, "failing"))
+			}
+			if len(poisons) == 1 && rapid.Bool().Draw(rt, "twoHealthy") {
+				before = c05GenScn(rt, oo, func(string) {})
+			}
+		}
 		s := c05GenScn(rt, oo, func(id string) { vkExcluded(unit, id) })
+		for _, p := range poisons {
+			if err := c05RunPoison(p); err != nil {
+				rt.Fatalf("%v", err)
+			}
+		}
 		g0, b0 := gatherAll.Load(), gatherBody.Load()
+		if before != nil {
+			v0, err := c05RunTCP(before, oo)
+			if err != nil {
+				rt.Fatalf("harness: loopback sockets unavailable: %v", err)
+			}
+			if v0.fail != "" {
+				rt.Fatalf("after failed connection(s) %+v, first healthy connection: %s", poisons, v0.fail)
+			}
+		}
 		v, err := c05RunTCP(s, oo)
 		if err != nil {
 			rt.Fatalf("harness: loopback sockets unavailable: %v", err)
 		}
 		if v.fail != "" {
+			if len(poisons) > 0 {
+				rt.Fatalf("after failed connection(s) %+v: %s", poisons, v.fail)
+			}
 			rt.Fatalf("%s", v.fail)
+		}
+		if len(poisons) > 0 {
+			v.nt = true
+			v.classes = append(v.classes, "sequence_after_failed_connection")
+			for _, p := range poisons {
+				v.classes = append(v.classes, "failing_"+p.Kind)
+			}
 		}
 		if gatherAll.Load() > g0 {
 			v.classes = append(v.classes, "path_gather_write")
@@ -167,12 +313,21 @@ func TestC05_Bytes(t *testing.T) {
 		} else {
 			v.classes = append(v.classes, "entry_composed")
 		}
+		if s.SockBuf > 0 {
+			v.classes = append(v.classes, "small_socket_buffers")
+		}
 		sort.Strings(v.classes)
 		key := ""
 		if v.nt {
-			key = c05NTKey(s)
+			key = fmt.Sprintf("%+v|%d|", poisons, s.SockBuf) + c05NTKey(s)
 		}
-		vkCase(unit, key, func() any { return s.Summary() }, v.classes...)
+		vkCase(unit, key, func() any {
+			m := s.Summary()
+			if len(poisons) > 0 {
+				m["failedConnectionsBefore"] = fmt.Sprintf("%+v", poisons)
+			}
+			return m
+		}, v.classes...)
 	})
 }
 
